@@ -690,6 +690,7 @@ def state(ctx: Ctx, py: PyProgram) -> None:
             continue
         n += 1
         ok = False
+        ok_in = set()
         for fn in (p1, p2):
             for st in fn.body:
                 if isinstance(st, ast.For):
@@ -697,6 +698,18 @@ def state(ctx: Ctx, py: PyProgram) -> None:
                 src = unparse(st)
                 if re.match(rf"self\.{f}\s*(:[^=]+)?=", src) or src.startswith(f"self.{f}.clear()"):
                     ok = True
+                    ok_in.add(fn.name)
+        if ok and p1.name not in ok_in:
+            # re-initialised by pass two only: then pass one (and every method it reaches) must not read it, or the first pass of the
+            # next assemble() on this object works with what the previous program left there
+            from ..memo import method_closure
+            reach = method_closure(mod, "Assembler", [p1.name])
+            cls_node = next(c_ for c_ in ast.walk(mod.tree) if isinstance(c_, ast.ClassDef) and c_.name == "Assembler")
+            readers = [m_.name for m_ in cls_node.body if isinstance(m_, ast.FunctionDef) and m_.name in reach
+                       and any(isinstance(x, ast.Attribute) and x.attr == f and isinstance(x.value, ast.Name) and x.value.id == "self" and isinstance(x.ctx, ast.Load) for x in ast.walk(m_))]
+            if readers:
+                ctx.violation("C10.5/reset", key_of(SC_ASM_PY, "Assembler._first_pass", f"self.{f} read by pass one, reset only in pass two"),
+                              f"self.{f} is re-initialised at the start of pass two only, but pass one reads it (through {sorted(readers)}): on a reused Assembler the first pass of the next program sees the previous program's {f}, so the two passes disagree", f"{SC_ASM_PY}:{p1.lineno}")
         if not ok and f == "current_address":
             # written in the pass-two loop before every use
             lp = [s for s in p2.body if isinstance(s, ast.For)]
